@@ -17,6 +17,8 @@ KINDS = {
     "csp": ("virtual_<const std::shared_ptr<{ns}::Base>&>", "const std::shared_ptr<{ns}::Def>&", "spb", "{a}.get()", True),
     "vp": ("virtual_ptr<{ns}::Base>", "virtual_ptr<{ns}::Def>", "virtual_ptr<{ns}::Base>(static_cast<{ns}::Base&>(obj))", "{a}.get()", False),
     "vsp": ("virtual_shared_ptr<{ns}::Base>", "virtual_shared_ptr<{ns}::Def>", "virtual_shared_ptr<{ns}::Base>(spb)", "{a}.get().get()", True),
+    "cvp": ("const virtual_ptr<{ns}::Base>&", "const virtual_ptr<{ns}::Def>&", "vpb", "{a}.get()", False),
+    "cvsp": ("const virtual_shared_ptr<{ns}::Base>&", "const virtual_shared_ptr<{ns}::Def>&", "vspb", "{a}.get().get()", True),
 }
 
 # non-virtual parameter categories: (parameter type, argument expressions for
@@ -109,6 +111,7 @@ def case_text(n, desc, ns, kind, pos, cat, ret):
     run.append("  std::string c = std::string(\"%s layout=\") + layout;" % desc)
     run.append("  ++g_cases;")
     run.append("  auto sp = std::make_shared<Most>(); Most& obj = *sp; std::shared_ptr<%s::Base> spb = sp; g_caller_owner = sp;" % ns)
+    run.append("  virtual_ptr<%s::Base> vpb(static_cast<%s::Base&>(obj)); virtual_shared_ptr<%s::Base> vspb(spb); (void)vpb; (void)vspb;" % (ns, ns, ns))
     run.append("  long uses = sp.use_count();")
     run.append("  Tracked t0(41), t1(42); auto u0 = std::make_unique<int>(51); auto u1 = std::make_unique<int>(52); (void)u0; (void)u1;")
     run.append("  Tracked::reset(); g_seen = Seen();")
